@@ -4,6 +4,7 @@ tie: Go nextWait / RetryWithCtx / RetrySome / Retry vs the extracted model, on a
 and on all outcome sequences of length <= 6 x retry limits x KeepErrs x context events."""
 import itertools, json, random
 import vlib
+import c18_code
 
 PID = "C18"
 I64MAX = 2 ** 63 - 1
@@ -350,7 +351,32 @@ def timing_cases(seed):
             dict(type="timing", backoff=1 * MS, max=6 * MS, jit=1, seed=seed + 1, retries=5)]
 
 
+_HARNESS = {}
+
+
+def _go_nextwait_factory():
+    """confirm a draw-free nextWait value on the real Go function (used by the directed search of c18_code)"""
+    exe = _HARNESS.get("exe")
+    if not exe:
+        return None
+
+    def f(base, mx, n):
+        rc, lines, _ = vlib.run_harness(exe, "TestVerifC18", "nw 0 %d %d %d 1 1\n" % (base, mx, n), timeout=60, tag="_code")
+        if rc != 0 or len(lines) != 1 or ":" not in lines[0]:
+            return None
+        w = lines[0].split(":")[1]
+        return w if w == "panic" else int(w)
+    return f
+
+
 def run(tier, seed, replay=None):
+    # Way 1 for the arithmetic (checks/c18_code.py, every run): the Go text of nextWait and of the normalisation in RetryWithCtx,
+    # translated on this run, is proved equal to the model for all int64 inputs
+    with c18_code.attached(nw_spec, _go_nextwait_factory):
+        return _run(tier, seed, replay)
+
+
+def _run(tier, seed, replay=None):
     res = vlib.Result(PID, tier, seed)
     res.assumptions = vlib.TRUSTED_COMMON + [
         "the operation f, the context and the timer are the environment of the model: a history is (ctx ended on entry?, "
@@ -371,6 +397,7 @@ def run(tier, seed, replay=None):
     if not ok:
         res.violation("harness-build", "Go harness does not build against the repository: " + log[-1500:], dict(kind="build"), False)
         return res.finish()
+    _HARNESS["exe"] = exe
 
     thorough = tier == "thorough"
     rnd = random.Random(seed)
